@@ -5,13 +5,13 @@ go 1.26.0
 require (
 	github.com/enbility/go-avahi v0.0.0-20240909195612-d5de6b280d7a
 	github.com/enbility/ship-go v0.0.0
+	github.com/godbus/dbus/v5 v5.1.0
 	github.com/gorilla/websocket v1.5.3
 	golang.org/x/tools v0.50.0
 )
 
 require (
 	github.com/enbility/zeroconf/v2 v2.0.0-20240920094356-be1cae74fda6 // indirect
-	github.com/godbus/dbus/v5 v5.1.0 // indirect
 	github.com/miekg/dns v1.1.62 // indirect
 	gitlab.com/c0b/go-ordered-json v0.0.0-20201030195603-febf46534d5a // indirect
 	golang.org/x/mod v0.41.0 // indirect
